@@ -91,6 +91,7 @@ mutual
     | tick (c k : Nat)                     -- regular built-in: succeeds while counter c < k, then fails
     | group (body : List Item)
     | subshell (body : List Item)
+    | asyncWait (body : List Item)         -- `{ body; } & wait`: an asynchronous list, then `wait`
     | ifc (cond : List Item) (body : List Item) (elifs : List (List Item × List Item)) (els : Option (List Item))
     | whileLoop (until_ : Bool) (cond : List Item) (body : List Item)
     | forLoop (values : Nat) (body : List Item)
@@ -288,6 +289,16 @@ mutual
         | r =>
           let c2 := c1.applyResult r
           let s1 := { s with status := c2.status, trace := c2.trace }
+          (s1, s1.applyErrexit)
+      | .asyncWait body =>
+        -- `execute_async`: the list runs in a subshell and the shell goes on at once with status 0;
+        -- `wait` without operands then returns 0 when the child is gone. Only the output comes back.
+        let (c1, r) := execList fuel (s.push .subshell) body
+        match r with
+        | .outOfFuel => (s, .outOfFuel)
+        | r =>
+          let c2 := c1.applyResult r
+          let s1 := { s with status := 0, trace := c2.trace }
           (s1, s1.applyErrexit)
       | .ifc cond body elifs els =>
         let (s1, r) := execList fuel (s.push .condition) cond
